@@ -72,9 +72,12 @@ def run_model(c: dict[str, Any], evs: list[OTelEvent]) -> Optional[str]:
             IngestData(chunk, h).load_to_data_holder()  # type: ignore[arg-type]
         except Exception as e:  # noqa
             return f"ingestion raised {type(e).__name__}: {e}"
+        # the time window of this process is derived from what it ingested (duplicates included: they were seen)
+        if chunk and (h.min_timestamp != min(e.start_timestamp for e in chunk) or h.max_timestamp != max(e.end_timestamp for e in chunk)):
+            return f"tracked time range [{h.min_timestamp}, {h.max_timestamp}] is not the range of the ingested spans"
     d = V.dump_model(store)
     want_nodes, want_assoc = expected(evs)
-    if d["nodes"] != want_nodes:
+    if sorted(d["nodes"], key=lambda r: r[3]) != sorted(want_nodes, key=lambda r: r[3]):   # row order is not part of the property
         return f"stored spans {d['nodes']} != first occurrences {want_nodes}"
     if d["assoc"] != want_assoc:
         return f"stored links {d['assoc']} != links of the stored spans {want_assoc}"
@@ -101,7 +104,7 @@ def run_real(c: dict[str, Any], evs: list[OTelEvent]) -> Optional[str]:
             os.unlink(os.path.join(tmp, f))
         os.rmdir(tmp)
     want_nodes, want_assoc = expected(evs)
-    if d["nodes"] != want_nodes:
+    if sorted(d["nodes"], key=lambda r: r[3]) != sorted(want_nodes, key=lambda r: r[3]):   # row order is not part of the property
         return f"stored spans {d['nodes']} != first occurrences {want_nodes}"
     if d["assoc"] != want_assoc:
         return f"stored links {d['assoc']} != links of the stored spans {want_assoc}"
